@@ -228,6 +228,8 @@ func (r *CheckRun) Run() (code int) {
 		err       error
 		genFailed bool
 	}
+	var knownAll []KnownFinding
+	loadJSON(filepath.Join(r.Verif, "known_findings.json"), &knownAll)
 	results := make([]fres, len(keys))
 	// generation and solving of the units run concurrently (registries are mutex-guarded)
 	var wg sync.WaitGroup
@@ -257,6 +259,12 @@ func (r *CheckRun) Run() (code int) {
 			}
 			vc := NewVCFor(P, P.Spec.Contracts[k], r.Prop)
 			vc.workDir = r.Work
+			vc.knownOpen = map[string]bool{}
+			for _, kf := range knownAll {
+				if kf.Status == "open" && kf.Property == r.Prop && kf.Func == vc.key {
+					vc.knownOpen[kf.Obligation] = true
+				}
+			}
 			if c := vc.contract; c != nil {
 				vc.safetyProp = false
 				for _, sp := range c.SafetyProps {
